@@ -342,15 +342,13 @@ def _on_hull_boundary(es, ns, k):
 
 
 def finding_key(case, io):
-    """F2: an interpolator built on SciPy's Delaunay simplex search WITHOUT rescaling returns NaN at one of its own data points that lies on the
-    boundary of the data's convex hull, for coordinates whose offset is at least 100 x their extent; everything else about the answer is right."""
+    """F2: an interpolator built on SciPy's Delaunay simplex search returns NaN at one of its own data points that lies on the BOUNDARY of
+    the data's convex hull (round-off in `find_simplex`'s barycentric test: seen at offsets of 1e3 x the extent and, rarely, without any
+    offset); everything else about the answer is right."""
     if case["fn"] != "exact" or C.is_err(io):
         return None
     which, es, ns, shape2d, data, params = case["args"]
-    if not ((which in ("linear", "cubic") and not params.get("rescale")) or which == "chain-trend-linear-knn"):
-        return None
-    extent = max(max(es) - min(es), max(ns) - min(ns))
-    if not (extent > 0 and max(abs(v) for v in es + ns) >= 100 * extent):
+    if which not in ("linear", "cubic", "chain-trend-linear-knn"):
         return None
     pred = np.array(io[1]["pred"][0])
     d = np.array(data[0])
@@ -361,4 +359,4 @@ def finding_key(case, io):
     sc = max(1.0, float(np.max(np.abs(d))))
     if np.any(ok) and float(np.max(np.abs(pred[ok] - d[ok]))) > 1e-9 * sc:
         return None
-    return "F2-delaunay-misses-hull-vertex-at-large-offset"
+    return "F2-delaunay-misses-hull-boundary-datum"
